@@ -364,3 +364,76 @@ func VH_C10_ActionEngine() {
 	}
 	verifrt.Reach("end")
 }
+
+// VH_C14_Chance: when a player is asked to act only that player's chance flags
+// may be raised; nothing else in anybody's statistics moves; I14 is preserved.
+func VH_C14_Chance() {
+	n := verifrt.Cfg("n")
+	m := verifrt.Cfg("m")
+	w := vhNewWorld(n, verifrt.Cfg("M"), m, true)
+	te := w.te
+	verifrt.Assume(vhTableStatsInv(te))
+	gs := te.table.State.GameState
+	pre := make([]TablePlayerGameStatistics, 0)
+	for _, p := range te.table.State.PlayerStates {
+		pre = append(pre, p.GameStatistics)
+	}
+	cur := -1
+	if gs.Status.CurrentPlayer >= 0 {
+		cur = te.table.State.GamePlayerIndexes[gs.Status.CurrentPlayer]
+	}
+	te.updateCurrentPlayerGameStatistics(gs)
+	verifrt.Assert(!verifrt.LockHeld(&te.lock), "statistics update releases the engine lock")
+	for i, p := range te.table.State.PlayerStates {
+		s := p.GameStatistics
+		o := pre[i]
+		if i == cur {
+			// chance flags may only go from false to true
+			verifrt.Assert((s.IsVPIPChance || !o.IsVPIPChance) && (s.IsPFRChance || !o.IsPFRChance) && (s.IsATSChance || !o.IsATSChance) &&
+				(s.Is3BChance || !o.Is3BChance) && (s.IsFt3BChance || !o.IsFt3BChance) && (s.IsCheckRaiseChance || !o.IsCheckRaiseChance) &&
+				(s.IsCBetChance || !o.IsCBetChance) && (s.IsFtCBChance || !o.IsFtCBChance), "chance flags are only ever raised")
+			o.IsVPIPChance, o.IsPFRChance, o.IsATSChance, o.Is3BChance = s.IsVPIPChance, s.IsPFRChance, s.IsATSChance, s.Is3BChance
+			o.IsFt3BChance, o.IsCheckRaiseChance, o.IsCBetChance, o.IsFtCBChance = s.IsFt3BChance, s.IsCheckRaiseChance, s.IsCBetChance, s.IsFtCBChance
+		}
+		verifrt.Assert(s == o, "being asked to act changes nothing but the asked player's chance flags")
+	}
+	verifrt.Assert(vhTableStatsInv(te), "statistics invariant preserved")
+	verifrt.Reach("end")
+}
+
+// VH_C14_Showdown: showdown flags written at settlement.
+func VH_C14_Showdown() {
+	w, m, _ := vhSettleWorld()
+	te := w.te
+	gs := te.table.State.GameState
+	// statistics were cleared before the hand; the showdown pair is still clear at settlement
+	for _, p := range te.table.State.PlayerStates {
+		p.GameStatistics.ShowdownWinningChance = false
+		p.GameStatistics.IsShowdownWinning = false
+	}
+	notFold := 0
+	best := 0
+	first := true
+	for k := 0; k < m; k++ {
+		if !gs.Players[k].Fold {
+			notFold++
+			if first || gs.Players[k].Combination.Power > best {
+				best = gs.Players[k].Combination.Power
+				first = false
+			}
+		}
+	}
+	gpi := make([]int, m)
+	copy(gpi, te.table.State.GamePlayerIndexes)
+	te.settleGame()
+	for k := 0; k < m; k++ {
+		s := te.table.State.PlayerStates[gpi[k]].GameStatistics
+		showdown := !gs.Players[k].Fold && notFold > 1
+		verifrt.Assert(s.ShowdownWinningChance == showdown, "showdown chance exactly for players who reached a showdown of two or more")
+		verifrt.Assert(!s.IsShowdownWinning || s.ShowdownWinningChance, "showdown win implies showdown chance")
+		if showdown {
+			verifrt.Assert(s.IsShowdownWinning == (gs.Players[k].Combination.Power == best), "showdown win flag exactly for the best hands at showdown")
+		}
+	}
+	verifrt.Reach("end")
+}
